@@ -139,7 +139,9 @@ def fixed_world_order(strategy):
     """Run the real code with `cg.extract_interventions` returning the worlds as a LIST in a chosen order instead of
     a `set` (whose iteration order depends on PYTHONHASHSEED).  Every use of `worlds` in cg.py (iteration, len,
     itertools.combinations) accepts a list.  strategy None = leave the code alone."""
-    import y0.algorithm.identify.cg as cg
+    import importlib
+
+    cg = importlib.import_module("y0.algorithm.identify.cg")
 
     if strategy is None:
         yield
@@ -212,58 +214,79 @@ def rand_event(rng: random.Random, g, max_worlds=3, max_items=4, p_self=None):
 
 
 def shrink_event_case(case, keys=("event",)):
-    """smaller cases: drop a node, an edge, a conjunct, a subscript; flip a star to unstarred"""
+    """smaller cases, most drastic first: drop a node (with its edges, conjuncts and subscripts), drop an edge,
+    drop a conjunct, drop a subscript, turn a starred value / subscript into an unstarred one.
+    Every event listed in `keys` must stay non-empty."""
     g = case["g"]
-    used = set()
-    for key in keys:
-        for var, _ in case.get(key, []):
-            used.add(int(var[1]))
-            used |= {int(n) for n, _ in var[4]}
-    for v in G.all_nodes(g):
+    nodes = G.all_nodes(g)
+
+    def ok(c):
+        return all(c.get(k) for k in keys)
+
+    for v in nodes:
         c = dict(case)
-        c["g"] = {"nodes": [x for x in G.all_nodes(g) if x != v], "di": [e for e in g["di"] if v not in e],
+        c["g"] = {"nodes": [x for x in nodes if x != v], "di": [e for e in g["di"] if v not in e],
                   "bi": [e for e in g["bi"] if v not in e]}
-        ok = True
         for key in keys:
-            ev2 = []
-            for var, val in case.get(key, []):
-                if int(var[1]) == v:
-                    continue
-                ev2.append([mkvar(var[1], [(n, s) for n, s in var[4] if int(n) != v]), val])
+            ev2 = [[mkvar(var[1], [(n, s) for n, s in var[4] if int(n) != v]), val]
+                   for var, val in case.get(key, []) if int(var[1]) != v]
             c[key] = _dedupe_event(ev2)
-        if ok and all(c.get(k) for k in keys if case.get(k)):
+        if ok(c):
             yield c
-    for kind in ("di", "bi"):
+    # bypass a node the events do not mention: parents -> children directly
+    mentioned = {int(var[1]) for key in keys for var, _ in case.get(key, [])} | \
+        {int(n) for key in keys for var, _ in case.get(key, []) for n, _ in var[4]}
+    for v in nodes:
+        pas = [e[0] for e in g["di"] if e[1] == v]
+        chs = [e[1] for e in g["di"] if e[0] == v]
+        if v in mentioned or not pas or not chs:
+            continue
+        c = dict(case)
+        di = [e for e in g["di"] if v not in e]
+        for p_ in pas:
+            for ch in chs:
+                if [p_, ch] not in di:
+                    di.append([p_, ch])
+        c["g"] = {"nodes": [x for x in nodes if x != v], "di": di, "bi": [e for e in g["bi"] if v not in e]}
+        yield c
+    for kind in ("bi", "di"):
         for k in range(len(g[kind])):
             c = dict(case)
-            c["g"] = dict(g, nodes=G.all_nodes(g))
+            c["g"] = {"nodes": nodes, "di": list(g["di"]), "bi": list(g["bi"])}
             c["g"][kind] = g[kind][:k] + g[kind][k + 1:]
             yield c
     for key in keys:
         ev = case.get(key, [])
         for k in range(len(ev)):
-            if len(ev) > 1 or len(keys) > 1:
-                c = dict(case)
-                c[key] = ev[:k] + ev[k + 1:]
-                if c[key] or key != keys[-1] or len(keys) == 1:
-                    if all(c.get(kk) for kk in keys if kk != "outcomes") or True:
-                        yield c
+            c = dict(case)
+            c[key] = ev[:k] + ev[k + 1:]
+            if ok(c):
+                yield c
+    for key in keys:
+        ev = case.get(key, [])
         for k, (var, val) in enumerate(ev):
             for j in range(len(var[4])):
                 c = dict(case)
                 nv = mkvar(var[1], var[4][:j] + var[4][j + 1:])
                 c[key] = _dedupe_event(ev[:k] + [[nv, val]] + ev[k + 1:])
-                yield c
-        # make all occurrences of one subscript (name, star) unstarred / one value unstarred
+                if len(c[key]) == len(ev):
+                    yield c
+    for key in keys:
+        ev = case.get(key, [])
         for k, (var, val) in enumerate(ev):
             if val == "p":
                 c = dict(case)
                 c[key] = ev[:k] + [[var, "m"]] + ev[k + 1:]
                 yield c
-        starred = sorted({int(n) for var, _ in ev for n, s in var[4] if s == "p"})
-        for n0 in starred:
-            c = dict(case)
+    starred = sorted({int(n) for key in keys for var, _ in case.get(key, []) for n, s in var[4] if s == "p"})
+    for n0 in starred:
+        c = dict(case)
+        good = True
+        for key in keys:
+            ev = case.get(key, [])
             c[key] = _dedupe_event([[mkvar(var[1], [(n, "m" if int(n) == n0 else s) for n, s in var[4]]), val] for var, val in ev])
+            good = good and len(c[key]) == len(ev)
+        if good:
             yield c
 
 
@@ -315,3 +338,41 @@ def load_corpus(prop):
             x = json.loads(f.read_text())
             out += x if isinstance(x, list) else [x]
     return out
+
+
+# ------------------------------------------------------------------------------------------ ID* orders
+
+
+def nx_var_key(v):
+    """sort key of a y0 variable mirroring `_variable_sort_key` on the harness's fixed-width names (Var.keyLt)"""
+    return E.var_key(E.enc_var(v))
+
+
+@contextlib.contextmanager
+def fixed_orders(strategy):
+    """strategy = (rev, rot, drev) or None.  (rev, rot): iteration order of the worlds set in cg.py (see
+    fixed_world_order); drev: iteration order of the nodes of a district (a frozenset) in the dict comprehension of
+    id_star.get_events_of_district -- sorted by `_variable_sort_key`, reversed when drev.  Only the ORDER in which the
+    unchanged real functions see their set-valued arguments is fixed."""
+    if strategy is None:
+        yield
+        return
+    import importlib
+
+    ids = importlib.import_module("y0.algorithm.identify.id_star")
+
+    rev, rot, drev = strategy
+    orig = ids.get_events_of_district
+
+    def patched(graph, district, event):
+        return orig(graph, sorted(district, key=nx_var_key, reverse=bool(drev)), event)
+    ids.get_events_of_district = patched
+    try:
+        with fixed_world_order((rev, rot)):
+            yield
+    finally:
+        ids.get_events_of_district = orig
+
+
+def id_strategies(ev, extra_worlds=0):
+    return [(r, k, d) for (r, k) in strategies_for(ev, extra_worlds) for d in (0, 1)]
